@@ -17,6 +17,33 @@ fn boundary_plain(r: &mut Rng, n: usize, t: u64, kind: u64) -> Vec<u64> {
 }
 
 /// 0 = public key, 1 = secret key, 2 = secret key with saved seed, expanded before use
+/// a destination that has been USED before: a size-3 product moved one level down (BGV: correction factor != 1), for BFV sometimes left in
+/// NTT form, for CKKS an object with another scale on the last level — encryption into it must not inherit any of that
+fn dirty_destination(s: &Setup, r: &mut Rng) -> Ciphertext {
+    let made = std::panic::catch_unwind(std::panic::AssertUnwindSafe(|| {
+        let ev = &s.evaluator;
+        if s.scheme == SchemeType::CKKS {
+            let enc = CKKSEncoder::new(s.ctx.clone());
+            let last = *s.levels().last().unwrap();
+            let p = enc.encode_f64_single_new(1.0, Some(last), 8.0);
+            let mut c = Ciphertext::new(); s.encryptor.encrypt_symmetric(&p, &mut c); c
+        } else {
+            let m: Vec<u64> = (0..s.n).map(|_| r.below(s.t)).collect();
+            let mut p = Plaintext::new(); p.resize(s.n); p.data_mut().copy_from_slice(&m);
+            let c = s.encryptor.encrypt_new(&p);
+            let mut c = ev.multiply_new(&c, &c);
+            if s.levels().len() >= 2 { c = ev.mod_switch_to_next_new(&c); }
+            if s.scheme == SchemeType::BFV && r.chance(1, 2) { ev.transform_to_ntt_inplace(&mut c); }
+            c
+        } }));
+    made.unwrap_or_else(|_| Ciphertext::new())
+}
+/// modes 3 / 4: public-key / secret-key encryption through the destination forms into a used destination
+fn enc_reuse(s: &Setup, plain: &Plaintext, mode: i32, r: &mut Rng) -> Ciphertext {
+    let mut d = dirty_destination(s, r);
+    if mode == 3 { s.encryptor.encrypt(plain, &mut d); } else { s.encryptor.encrypt_symmetric(plain, &mut d); }
+    d
+}
 fn enc_mode(s: &Setup, plain: &Plaintext, mode: i32) -> Ciphertext {
     match mode {
         0 => s.encryptor.encrypt_new(plain),
@@ -103,8 +130,10 @@ pub fn run(out: &mut Out, thorough: bool, seed: u64, _extra: &[String]) {
                 let scale = 2f64.powi(sb);
                 let vals: Vec<num_complex::Complex64> = (0..n / 2).map(|_| num_complex::Complex64::new(((r.below(2001) as f64) - 1000.0) / 8.0, ((r.below(2001) as f64) - 1000.0) / 8.0)).collect();
                 let plain = match std::panic::catch_unwind(std::panic::AssertUnwindSafe(|| enc.encode_c64_array_new(&vals, Some(pid), scale))) { Ok(p) => p, Err(_) => continue };
-                for mode in 0..3 {
-                    let ct = enc_mode(&s, &plain, mode);
+                for mode in 0..5 {
+                    let ct = if mode < 3 { enc_mode(&s, &plain, mode) } else { enc_reuse(&s, &plain, mode, &mut r) };
+                    let (mode, rz) = if mode >= 3 { (mode - 3, "-reuse") } else { (mode, "") };
+                    let cls = format!("{}{}", cls, rz);
                     // `fresh`: ciphertext, the plaintext it was made from (RNS, NTT form), mode; impl = library decryption
                     let pk = plain.data().len() / n;
                     let pstr = (0..pk).map(|c| fl(&plain.data()[c * n..(c + 1) * n])).collect::<Vec<_>>().join(";");
@@ -117,8 +146,10 @@ pub fn run(out: &mut Out, thorough: bool, seed: u64, _extra: &[String]) {
             let coeffs = boundary_plain(&mut r, n, t, pk);
             let mut plain = Plaintext::new(); plain.resize(coeffs.len()); plain.data_mut().copy_from_slice(&coeffs);
             let trimmed = { let mut c = coeffs.clone(); while c.len() > 1 && *c.last().unwrap() == 0 { c.pop(); } c };
-            for mode in 0..3 {
-                let ct = enc_mode(&s, &plain, mode);
+            for mode in 0..5 {
+                let ct = if mode < 3 { enc_mode(&s, &plain, mode) } else { enc_reuse(&s, &plain, mode, &mut r) };
+                let (mode, rz) = if mode >= 3 { (mode - 3, "-reuse") } else { (mode, "") };
+                let cls = format!("{}{}", cls, rz);
                 out.case(&format!("fresh {} {} {}", s.ct_case(&ct), mode, fl(&trimmed)), &format!("{}-p{}-m{}", cls, pk, mode), || s.dec_str(&ct));
                 if rep % 3 == 0 && pk == 6 {
                     let view = if ct.is_ntt_form() { s.evaluator.transform_from_ntt_new(&ct) } else { ct.clone() };
